@@ -518,8 +518,13 @@ def check_protocol(repo: Repo, rep: Report, h: Harness, jp: JavaProtocol) -> Non
         try:
             vs, b = fresh(cls)
             c1, c2 = h.tree("b", "NOT", [vs[1]]), h.tree("b", "LE", [vs[0], 3])
+            c0, c3 = h.tree("b", "OR", [vs[1], vs[2]]), h.tree("b", "GE", [vs[3], 1])
+            # constraints arrive one at a time and in batches, in any interleaving (Solver posts one batch then single clauses,
+            # the Analyzer several batches): every one of them stays posted, in order
+            h.cw.method(b, "add_constraint")(c0)
             h.cw.method(b, "add_constraint")([c1, c2])
             h.cw.method(b, "add_constraint")(True)
+            h.cw.method(b, "add_constraint")([c3])
             descs: List[str] = []
 
             def reply_sat(desc: str) -> str:
@@ -537,7 +542,7 @@ def check_protocol(repo: Repo, rep: Report, h: Harness, jp: JavaProtocol) -> Non
             r = h.cw.method(b, "solve")()
             sols = [v.attrs.get("sol") for v in vs]
             exp_desc = "\n".join([h.cw.call("_convert_variable", v) for v in vs]
-                                 + [h.cw.call("_convert_expr", c) for c in (c1, c2, True)])
+                                 + [h.cw.call("_convert_expr", c) for c in (c0, c1, c2, True, c3)])
             if not descs or descs[0] != exp_desc:
                 rep.finding("SGR-5", SUGAR, "SugarLikeBackend.solve", "CSP description",
                             f"description sent is {descs[0] if descs else None!r}; expected declarations then constraints: {exp_desc!r}")
